@@ -29,6 +29,10 @@ class RepeaterStorage:
             # store the newly created repeater
             self.__repeaters[found.id] = found
 
+        if not found:
+            # nothing to patch or save
+            return None
+
         return self.save(rpt=found, patch=patch)
 
     def save(self, rpt: Repeater, patch: Dict[str, any] = {}) -> Repeater:
